@@ -224,6 +224,6 @@ SUBS = [
 
 MANIFEST = {
     "technique": "property-based testing over models x process environments: in-process purity/idempotence checks plus a subprocess matrix (PYTHONHASHSEED x locale/default-encoding) comparing SHA-256 digests of all eight writers' outputs; ASCII-locale read-back of the readable formats",
-    "level_text": "Generated batches of eight models (one per writer) are serialised in-process three times and in three fresh interpreter processes under drawn hash seeds and locale/encoding settings; all digests must agree, the model must be untouched, the returned value must equal the file, and the ASCII-locale process must read the files back with the same names. Sampling over models and over the environment matrix.",
+    "level_text": "Generated batches of eight models (one per writer) are serialised in-process three times and in three fresh interpreter processes under drawn hash seeds and locale/encoding settings; all digests must agree, the model must be untouched, the returned value must equal the file, and the ASCII-locale process must read the files back with the same names. Sampling over models and over the environment matrix. Also: foreign models with repeated constraint names and with non-finite floats inside list/dict values. A sample of every sub-check additionally runs in a `python -OO` child with the root logger at DEBUG.",
     "level_note": "Trusted: vf/c12_worker.py, the environment switches (LC_ALL=C PYTHONCOERCECLOCALE=0 PYTHONUTF8=0 gives an ASCII preferred encoding - asserted at run time), sha256.",
 }
